@@ -109,21 +109,50 @@ def check(ctx):
     ctx.extra["assumed_total_callees"] = sorted(total)
 
 
+# ---- texts of the repaired code (fix commits e48c134, 66e9dfe, 74ef0c0, 7d9f4f6) and of what they replaced ---------------------------
+_SYS_FIXED = '    try:\n        system = cast(Optional[str], event.get("log_system", None))\n        if system is None:\n            level = cast(Optional[NamedConstant], event.get("log_level", None))\n            if level is None:\n                levelName = "-"\n            else:\n                levelName = level.name\n\n            system = "{namespace}#{level}".format(\n                namespace=cast(str, event.get("log_namespace", "-")),\n                level=levelName,\n            )\n        else:\n            system = str(system)\n    except BaseException:\n        system = "UNFORMATTABLE"\n    return system\n'
+_SYS_BEFORE = '    system = cast(Optional[str], event.get("log_system", None))\n    if system is None:\n        level = cast(Optional[NamedConstant], event.get("log_level", None))\n        if level is None:\n            levelName = "-"\n        else:\n            levelName = level.name\n\n        system = "{namespace}#{level}".format(\n            namespace=cast(str, event.get("log_namespace", "-")),\n            level=levelName,\n        )\n    else:\n        try:\n            system = str(system)\n        except Exception:\n            system = "UNFORMATTABLE"\n    return system\n'
+_TS_FIXED = ("        try:\n            timeStamp = \"\".join(\n                [formatTime(cast(float, event.get(\"log_time\", None))), \" \"]\n            )\n"
+             "        except BaseException:\n            # An event's time is whatever its emitter put there; like the rest\n"
+             "            # of the event it must not be able to break formatting.\n            timeStamp = \"UNFORMATTABLE \"\n")
+_TS_BEFORE = "        timeStamp = \"\".join([formatTime(cast(float, event.get(\"log_time\", None))), \" \"])\n"
+_TB_FIXED = ("    try:\n        traceback = failure.getTraceback()\n    except BaseException as e:\n"
+             "        traceback = \"(UNABLE TO OBTAIN TRACEBACK FROM EVENT):\" + safe_str(e)\n    if not isinstance(traceback, str):\n"
+             "        # Whatever was logged as the failure, the result is joined to text.\n        traceback = safe_str(traceback)\n    return traceback\n")
+_LEGACY_FIXED = ("            except KeyboardInterrupt:\n                raise\n            except BaseException as e:\n"
+                 "                traceback = \"(unable to obtain traceback): \" + reflect.safe_str(e)\n            if not isinstance(traceback, str):\n"
+                 "                traceback = reflect.safe_str(traceback)\n")
+_LEGACY_BEFORE = "            except Exception as e:\n                traceback = \"(unable to obtain traceback): \" + str(e)\n"
+_SAFEFORMAT_FIXED = ("        text = fmtString % fmtDict\n        if not isinstance(text, str):\n            # A bytes format string produces bytes; that is not a usable\n"
+                     "            # format string for a function which returns text.\n            raise TypeError(\"log format did not produce text\")\n")
+
 MUTANTS = [
+    # reverts of the fix: commits
+    Mutant("revert-F55-timestamp-guard", FMT, _TS_FIXED, _TS_BEFORE, expect_rule="escape/unprotected"),
+    Mutant("revert-F55-F55e-formatSystem-guard", FMT, _SYS_FIXED, _SYS_BEFORE, expect_rule="escape/"),
+    Mutant("revert-F55f-safe-str-of-caught-exception", FMT, "(UNABLE TO OBTAIN TRACEBACK FROM EVENT):\" + safe_str(e)", "(UNABLE TO OBTAIN TRACEBACK FROM EVENT):\" + str(e)",
+           expect_rule="escape/unprotected"),
+    Mutant("revert-F55g-non-str-traceback-guard", FMT, "    if not isinstance(traceback, str):\n        # Whatever was logged as the failure, the result is joined to text.\n        traceback = safe_str(traceback)\n", "",
+           expect_rule="escape/unprotected"),
+    Mutant("revert-F55h-legacy-traceback-handler", LOG, _LEGACY_FIXED, _LEGACY_BEFORE, expect_rule="escape/"),
+    Mutant("revert-F55i-safeFormat-text-check", LOG, _SAFEFORMAT_FIXED, "        text = fmtString % fmtDict\n", expect_rule="returns-text"),
+    Mutant("system-str-before-the-guard", FMT, "    try:\n        system = cast(Optional[str], event.get(\"log_system\", None))\n        if system is None:\n",
+           "    system = cast(Optional[str], event.get(\"log_system\", None))\n    if system is not None:\n        return str(system)\n    try:\n        if system is None:\n",
+           expect_rule="escape/unprotected"),
+    Mutant("system-guard-narrowed", FMT, "            system = str(system)\n    except BaseException:\n        system = \"UNFORMATTABLE\"\n",
+           "            system = str(system)\n    except Exception:\n        system = \"UNFORMATTABLE\"\n", expect_rule="escape/handler-not-catch-all"),
+    Mutant("traceback-note-reprs-the-failure", FMT, "(UNABLE TO OBTAIN TRACEBACK FROM EVENT):\" + safe_str(e)", "(UNABLE TO OBTAIN TRACEBACK FROM EVENT):\" + safe_str(e) + \" in \" + repr(failure)",
+           expect_rule="escape/unprotected"),
+    Mutant("traceback-handler-narrowed", FMT, "    except BaseException as e:\n        traceback = \"(UNABLE TO OBTAIN TRACEBACK FROM EVENT):\"",
+           "    except Exception as e:\n        traceback = \"(UNABLE TO OBTAIN TRACEBACK FROM EVENT):\"", expect_rule="escape/handler-not-catch-all"),
     Mutant("formatEvent-handler-narrowed", FMT, "    except BaseException as e:\n        return formatUnformattableEvent(event, e)",
            "    except Exception as e:\n        return formatUnformattableEvent(event, e)", expect_rule="escape/handler-not-catch-all"),
-    Mutant("system-str-unprotected", FMT, "        try:\n            system = str(system)\n        except Exception:\n            system = \"UNFORMATTABLE\"\n",
-           "        system = str(system)\n", expect_rule="escape/unprotected"),
     Mutant("fallback-uses-repr", FMT, "\" = \".join((safe_repr(key), safe_repr(value)))", "\" = \".join((safe_repr(key), repr(value)))",
            expect_rule="escape/unprotected"),
     Mutant("unformattable-handler-narrowed", FMT, "    except BaseException:\n        # Yikes, something really nasty happened.",
            "    except Exception:\n        # Yikes, something really nasty happened.", expect_rule="escape/handler-not-catch-all"),
     Mutant("last-resort-formats-inner-exception", FMT, "    except BaseException:\n        # Yikes, something really nasty happened.", "    except BaseException as inner:\n        # Yikes, something really nasty happened.",
            more=[(FMT, "error=safe_repr(error), failure=failure, text=text", "error=safe_repr(error), failure=inner, text=text")], expect_rule="escape/unprotected"),
-    Mutant("traceback-note-reprs-the-failure", FMT, "        traceback = \"(UNABLE TO OBTAIN TRACEBACK FROM EVENT):\" + str(e)", "        traceback = \"(UNABLE TO OBTAIN TRACEBACK FROM EVENT):\" + str(e) + \" in \" + repr(failure)",
-           expect_rule="escape/unprotected"),
-    Mutant("traceback-handler-narrowed", FMT, "    except BaseException as e:\n        traceback = \"(UNABLE TO OBTAIN TRACEBACK FROM EVENT):\" + str(e)",
-           "    except Exception as e:\n        traceback = \"(UNABLE TO OBTAIN TRACEBACK FROM EVENT):\" + str(e)", expect_rule="escape/handler-not-catch-all"),
     Mutant("flattened-branch-hoisted-out-of-try", FMT, "    try:\n        if \"log_flattened\" in event:\n            return flatFormat(event)\n\n        format =",
            "    if \"log_flattened\" in event:\n        return flatFormat(event)\n    try:\n        format =", expect_rule="escape/unprotected"),
     Mutant("decode-after-try", FMT, "        elif isinstance(format, bytes):\n            format = format.decode(\"utf-8\")\n        else:\n            raise TypeError(f\"Log format must be str, not {format!r}\")\n\n        return formatWithCall(format, event)\n",
@@ -137,15 +166,21 @@ MUTANTS = [
     Mutant("legacy-message-str", LOG, "        text = \" \".join(map(reflect.safe_str, edm))", "        text = \" \".join(map(str, edm))", expect_rule="escape/unprotected"),
 ]
 SILENT = [
+    Silent("traceback-note-uses-safe-repr", FMT, "(UNABLE TO OBTAIN TRACEBACK FROM EVENT):\" + safe_str(e)", "(UNABLE TO OBTAIN TRACEBACK FROM EVENT):\" + safe_str(e) + \" in \" + safe_repr(failure)"),
+    Silent("traceback-returns-directly-with-renamed-exception", FMT, _TB_FIXED,
+           "    try:\n        traceback = failure.getTraceback()\n    except BaseException as problem:\n        why = safe_str(problem)\n        return \"(UNABLE TO OBTAIN TRACEBACK FROM EVENT):\" + why\n"
+           "    if isinstance(traceback, str):\n        return traceback\n    return safe_str(traceback)\n"),
+    Silent("level-name-as-conditional-expression", FMT, "            if level is None:\n                levelName = \"-\"\n            else:\n                levelName = level.name\n",
+           "            levelName = \"-\" if level is None else level.name\n"),
+    Silent("formatSystem-early-returns-inside-the-guard", FMT, _SYS_FIXED,
+           "    try:\n        system = cast(Optional[str], event.get(\"log_system\", None))\n        if system is not None:\n            return str(system)\n"
+           "        level = cast(Optional[NamedConstant], event.get(\"log_level\", None))\n        levelName = \"-\" if level is None else level.name\n"
+           "        return \"{namespace}#{level}\".format(namespace=cast(str, event.get(\"log_namespace\", \"-\")), level=levelName)\n"
+           "    except BaseException:\n        return \"UNFORMATTABLE\"\n"),
     Silent("rename-local-format", FMT, "        format = cast(Optional[Union[str, bytes]], event.get(\"log_format\", None))\n        if format is None:\n            return \"\"\n\n        # Make sure format is text.\n        if isinstance(format, str):\n            pass\n        elif isinstance(format, bytes):\n            format = format.decode(\"utf-8\")\n        else:\n            raise TypeError(f\"Log format must be str, not {format!r}\")\n\n        return formatWithCall(format, event)\n",
            "        fmt = cast(Optional[Union[str, bytes]], event.get(\"log_format\", None))\n        if fmt is None:\n            return \"\"\n        if isinstance(fmt, bytes):\n            fmt = fmt.decode(\"utf-8\")\n        elif not isinstance(fmt, str):\n            raise TypeError(f\"Log format must be str, not {fmt!r}\")\n        return formatWithCall(fmt, event)\n"),
     Silent("bare-except", FMT, "    except BaseException:\n        # Yikes, something really nasty happened.", "    except:\n        # Yikes, something really nasty happened."),
     Silent("concat-instead-of-join", FMT, "        system = \"\".join([\"[\", _formatSystem(event), \"]\", \" \"])", "        system = \"[\" + _formatSystem(event) + \"] \""),
-    Silent("traceback-note-uses-safe-repr", FMT, "        traceback = \"(UNABLE TO OBTAIN TRACEBACK FROM EVENT):\" + str(e)", "        traceback = \"(UNABLE TO OBTAIN TRACEBACK FROM EVENT):\" + str(e) + \" in \" + safe_repr(failure)"),
-    Silent("traceback-returns-from-try-with-renamed-exception", FMT, "    try:\n        traceback = failure.getTraceback()\n    except BaseException as e:\n        traceback = \"(UNABLE TO OBTAIN TRACEBACK FROM EVENT):\" + str(e)\n    return traceback\n",
-           "    try:\n        return failure.getTraceback()\n    except BaseException as problem:\n        why = str(problem)\n        return \"(UNABLE TO OBTAIN TRACEBACK FROM EVENT):\" + why\n"),
-    Silent("level-name-as-conditional-expression", FMT, "        if level is None:\n            levelName = \"-\"\n        else:\n            levelName = level.name\n",
-           "        levelName = \"-\" if level is None else level.name\n"),
     Silent("legacy-header-local-and-guard-clause", LOG, "            if why:\n                why = reflect.safe_str(why)\n            else:\n                why = \"Unhandled Error\"\n",
            "            heading = reflect.safe_str(why) if why else \"Unhandled Error\"\n",
            more=[(LOG, "            text = why + \"\\n\" + traceback\n", "            text = heading + \"\\n\" + traceback\n")]),
